@@ -84,6 +84,31 @@ fn one(c: &mut Case, b: &Bufs, cfg: &DCfg, input: &[u8], gz: Option<&GzFields>, 
             }
             if let crate::refs::inflate_ref::RefResult::Complete { out: dec, bits_used, .. } = crate::refs::inflate_ref::inflate_raw(out, &o) {
                 if dec == input && (bits_used + 7) / 8 == produced {
+                    // the tolerated corner (finding F5) is exactly: the reference implementation, given the same
+                    // parameters, input and buffer size, also answers Z_OK with the buffer full
+                    let mut n = Strm::plain();
+                    let mut ng_same = false;
+                    if deflate_init::<Ng>(&mut n, cfg) == Z_OK {
+                        let mut ok = true;
+                        if let Some(d) = dict {
+                            let p = b.aux.put(d, true);
+                            ok = Ng::deflateSetDictionary(n.p(), p, d.len() as u32) == Z_OK;
+                        }
+                        if ok {
+                            let nout = b.aux.at_end(bound);
+                            n.z.next_in = pin;
+                            n.z.avail_in = input.len() as u32;
+                            n.z.next_out = nout;
+                            n.z.avail_out = bound as u32;
+                            c.exec();
+                            let nret = Ng::deflate(n.p(), Z_FINISH);
+                            ng_same = nret == Z_OK && n.z.avail_out == 0 && n.z.avail_in == 0;
+                        }
+                        Ng::deflateEnd(n.p());
+                    }
+                    if !ng_same {
+                        return Err(format!("{what}: deflate(Z_FINISH) into deflateBound({}) = {bound} bytes wrote the whole stream but returned Z_OK instead of Z_STREAM_END, where zlib-ng returns Z_STREAM_END for the same call", input.len()));
+                    }
                     c.soft_violation(format!("{what}: a complete stream of exactly deflateBound bytes ({bound}) was produced, but deflate(Z_FINISH) returned Z_OK instead of Z_STREAM_END (raw stream, exact fit; zlib-ng returns the same)"));
                     return Ok(());
                 }
